@@ -105,4 +105,11 @@ TEXT.update({
            "Hasher modelled as a recorder of the write stream; shapes concrete, contents symbolic.",
            "MIR symbolic execution + z3 (owned-copy equality, eq => hash-stream equality)"),
 })
+TEXT.update({
+ "C12": _t("Symbolic execution of the real formatting / conversion / comparison MIR on records parsed from encodings whose every name, string and "
+           "blob byte is symbolic: any path on which an observer panics (unwrap on non-UTF-8, fmt::Error turned into a to_string panic, index, "
+           "overflow) is a counter-example; z3 decides UTF-8 validity exactly.", "DESIGN.md section 3 C12",
+           "core::fmt machinery modelled; observers listed in the evidence; inputs are reference encodings of every type (shapes bounded).",
+           "MIR symbolic execution + z3, panic-freedom of observers"),
+})
 NA_REASON = {}
